@@ -18,6 +18,17 @@ pub fn element_value<P: MalachiteCtxParams>(e: &NaturalE<P>) -> &Natural {
 pub fn exponent_value<P: MalachiteCtxParams>(x: &NaturalX<P>) -> &Natural {
     &x.0
 }
+/// (p, q, g, cofactor) of the context
+pub fn params_of<P: MalachiteCtxParams>(
+    ctx: &MalachiteCtx<P>,
+) -> (&Natural, &Natural, &Natural, &Natural) {
+    (
+        &ctx.params.modulus().0,
+        &ctx.params.exp_modulus().0,
+        &ctx.params.generator().0,
+        ctx.params.co_factor(),
+    )
+}
 pub fn plaintext_raw(value: Natural) -> NaturalP {
     NaturalP(value)
 }
